@@ -58,8 +58,8 @@ func (si *SourceImpl) propagate(s *Server, ss *Session, db int, name string, arg
 	if !si.Propagate {
 		return
 	}
-	if isReadOnly(name) || isControl(name) {
-		return
+	if isReadOnly(name) || isControl(name) || name == "eval" || name == "evalsha" {
+		return // a script's nested writes are propagated per command
 	}
 	if isNoop(name, args, reply) {
 		si.Noops++
